@@ -8,9 +8,9 @@
 (*                           "post_reset_state" | "plan_files" | "plan_digest" | "archive_bytes" |            *)
 (*                           "extract_listing", proc |-> n, seed |-> PYTHONHASHSEED of that interpreter,      *)
 (*                           phase |-> "first" | ..., digest |-> small integer], ... >>]                      *)
-(* clause  = "<kind>_differs_in_same_interpreter_<phase>" | "<kind>_differs_across_interpreters_with_same_   *)
-(*           hash_seed" | "<kind>_differs_across_hash_seeds" | "reset_does_not_restore_initial_state" |       *)
-(*           "extract_differs_from_planned_files"                                                             *)
+(* clause  = "<kind>_differs_in_same_interpreter" | "<kind>_differs_across_interpreters" (same hash seed) |  *)
+(*           "<kind>_differs_across_hash_seeds" | "reset_does_not_restore_initial_state" |                    *)
+(*           "extract_differs_from_planned_files"      (kept short: TLC wraps printed values at 80 columns)   *)
 EXTENDS Naturals, Sequences, FiniteSets, Json, IOUtils, TLC, TLCExt
 
 Batch == JsonDeserialize(IOEnv.TRACE_FILE)
